@@ -152,3 +152,20 @@ Proof.
   cbv zeta. repeat split; try reflexivity.
   exists 1. split; [split; [discriminate | reflexivity] |]. split; [reflexivity | right; left; reflexivity].
 Qed.
+
+(* the classification chain regenerated from run_test: a path is submitted to the assertion solver
+   exactly when it is a configured Panic or the failure flag is set; it is a stuck candidate exactly
+   when it is neither and is_stuck; a stuck candidate is counted unless the solver refutes it *)
+Theorem C03_classify_potential :
+  forall p f s h, classify p f s h = CL_POTENTIAL <-> (p = true \/ f = true).
+Proof. exact classify_potential_spec. Qed.
+Print Assumptions C03_classify_potential.
+
+Theorem C03_classify_stuck :
+  forall p f s h, classify p f s h = CL_STUCK <-> (p = false /\ f = false /\ s = true).
+Proof. exact classify_stuck_spec. Qed.
+Print Assumptions C03_classify_stuck.
+
+Theorem C03_stuck_counted : forall r, stuck_counts r = true <-> r <> S_UNSAT.
+Proof. exact stuck_counts_spec. Qed.
+Print Assumptions C03_stuck_counted.
